@@ -35,8 +35,10 @@ func CompileAllOf(rootSchema *schema.Schema) {
 
 	c.processSchema(rootSchema)
 
-	// In case allow is used only in types (not in the root schema).
-	for name := range rootSchema.TypesList() {
+	// In case allow is used only in types (not in the root schema). The types
+	// are taken in the order of their names, so that the error reported when
+	// several of them are broken does not depend on map iteration.
+	for _, name := range sortedTypeNames(rootSchema.TypesList()) {
 		c.processType(name)
 	}
 
